@@ -1,4 +1,4 @@
-(* C18 driver: runs the call history of a case on the extracted model of the iterator and
+(* C18 driver: runs the call history of a case (ops n b t<k> q<k> l h c k d, r) on the extracted model of the iterator and
    on the deque (Spec/Deque.v) holding the implementation's own item list, and compares
    every call's output.  [d] (drain) is next until None; [r] starts again from a fresh
    iterator; both are expanded here, call by call, through the extracted step functions.
@@ -33,6 +33,7 @@ let parse_tok (t : string) : tok =
     let arg = String.sub t (!p + 1) (String.length t - !p - 1) in
     match t.[!p] with
     | 'n' -> Call (slot, Next) | 'b' -> Call (slot, NextBack) | 't' -> Call (slot, Nth (n_of_string arg))
+    | 'q' -> Call (slot, NthBack (n_of_string arg))
     | 'l' -> Call (slot, Len) | 'h' -> Call (slot, SizeHint) | 'c' -> Call (slot, Count) | 'k' -> Call (slot, Clone)
     | 'd' -> Drain slot
     | _ -> failwith "op"
@@ -99,7 +100,7 @@ let handle kind fs obs =
   let limit = List.length impl_items + 64 in
   (* ---- model observation *)
   let full = (match kind with "rich" | "imp32" | "imp64" | "dbg32" | "dbg64" | "exc64"
-                            | "res" | "iat32" | "iat64" | "int32" | "int64" | "dia32" | "dia64" -> true | _ -> false) in
+                            | "res" | "iat32" | "iat64" | "int32" | "int64" | "dia32" | "dia64" | "sect" -> true | _ -> false) in
   (* forward iterators whose size hint is exact (Map over slice::Iter / Range / Zip behind `impl Iterator`) *)
   let exact = (match kind with "exp32" | "exp64" | "wexp" -> true | _ -> false) in
   (* is an iterator to be handed out?  Some true / Some false from the generator; None: not predicted *)
@@ -149,8 +150,8 @@ let handle kind fs obs =
       let show it = Printf.sprintf "%s.%s.%s" (string_of_n it.pg_rva) (string_of_n it.pg_size) (hex_of_nlist it.pg_name) in
       let its = List.map show (items pgo_next pgo_measure st) in
       with_items its (model_side pgo_impl st show toks (List.length its + 64))
-    | "imp32" | "imp64" | "dbg32" | "dbg64" | "wimp" | "wdbg" | "exc64" ->
-      (* delegating iterators: the underlying slice is the expected entry list of the generator (structured
+    | "imp32" | "imp64" | "dbg32" | "dbg64" | "wimp" | "wdbg" ->
+      (* delegating iterators (imports::Iter, debug::Iter and the Wrap over them): the underlying slice is the expected entry list of the generator (structured
          inputs) or the implementation's own forward list (malformed inputs, where no expectation exists) *)
       if it = Some false then "noiter=" ^ noiter_err
       else if it = None && not has_items then obs      (* outcome not predicted by the generator (old corpus files; a directory running into the fill) *)
@@ -164,7 +165,8 @@ let handle kind fs obs =
         with_items (List.map tag under) (model_side impl under (fun s -> s) toks (List.length under + 64))
       end else
         with_items under (model_side inner under (fun s -> s) toks (List.length under + 64))
-    | "exp32" | "exp64" | "wexp" | "res" | "iat32" | "iat64" | "wiat" | "int32" | "int64" | "wint" | "dia32" | "dia64" | "wdia" | "icons" | "curs" ->
+    | "exp32" | "exp64" | "wexp" | "res" | "iat32" | "iat64" | "wiat" | "int32" | "int64" | "wint" | "dia32" | "dia64" | "wdia" | "icons" | "curs"
+    | "exc64" | "sect" | "strs" ->
       (* compositions of std adaptors (Model/ItersMore.v): the model builds the iterator from the tables of the case *)
       if it = Some false then "noiter=" ^ noiter_err else begin
         let lst k = split_on ',' (field fs k) in
@@ -201,7 +203,17 @@ let handle kind fs obs =
           let u = fill (lst "exp") in
           go (icons_impl idm) (icons_start (if field fs "grp" = "1" then Some u else None)) (List.length u)
         | "iat32" | "iat64" | "int32" | "int64" -> let u = fill (lst "exp") in go (entries_impl idm) u (List.length u)
-        | "dia32" | "dia64" -> let u = fill (lst "exp") in go (deleg_impl idm) u (List.length u)   (* slice_impl, inlined by the extraction *)
+        | "dia32" | "dia64" -> let u = fill (lst "exp") in go slice_impl u (List.length u)
+        (* Exception::functions: the Map<slice::Iter, F> the code builds, over the planted runtime function records *)
+        | "exc64" -> let u = fill (lst "exp") in go (exc_functions_impl idm) u (List.length u)
+        (* SectionHeaders::iter / into_iter: the slice::Iter over the declared section headers *)
+        | "sect" -> let u = lst "exp" in go sections_iter_impl u (List.length u)
+        (* flags!::to_strs: FilterMap over 0..bits of the value's set bits through the identifier table of the case *)
+        | "strs" ->
+          let tab = Array.of_list (lst "tab") in
+          let flag_str i = (let i = int_of_n i in if i < Array.length tab && tab.(i) <> "-" then Some tab.(i) else None) in
+          let bits = n_of_string (field fs "bits") in
+          go (to_strs_impl flag_str (n_of_string (field fs "value"))) (to_strs_start bits) (int_of_n bits)
         | "wiat" -> let u = fill (lst "exp") in go (wrap_entries_impl idm (tag_of_hdr ())) u (List.length u)
         | "wdia" -> let u = fill (lst "exp") in go (wrap_slice_impl (tag_of_hdr ())) u (List.length u)
         | _ -> let u = fill (lst "exp") in go (wrap_int_impl idm (tag_of_hdr ()) strip) u (List.length u)
@@ -233,8 +245,11 @@ let handle kind fs obs =
            List.map strip impl_items = e))
     with Bad_obs -> false) in
   let ncalls = List.length toks in
-  let tags = Printf.sprintf "%s,%s,items%s,%s" kind (if wild then "wild" else "structured")
+  let has_nth_back = List.exists (function Call (_, NthBack _) -> true | _ -> false) toks in
+  let tags = Printf.sprintf "%s,%s,items%s,%s%s%s" kind (if wild then "wild" else "structured")
     (let k = List.length impl_items in if k = 0 then "0" else if k < 3 then "1-2" else if k < 9 then "3-8" else "9+")
-    (if ncalls > 200 then "exhaustive" else "random") in
+    (if ncalls > 200 then "exhaustive" else "random")
+    (if has_nth_back && has_items then (if full then ",nth_back" else ",nth_back-unsupported") else "")
+    (if kind = "sect" && List.length impl_items >= 95 then ",sect95+" else "") in
   (mobs, ok, impl_items <> [], tags, None)
 let () = run_driver handle
